@@ -546,6 +546,12 @@ class SBool:
     def __format__(self, spec):
         return '<SBool>'
 
+    def __deepcopy__(self, memo):
+        return self
+
+    def __copy__(self):
+        return self
+
 
 class _SNum:
     __slots__ = ('z',)
@@ -716,6 +722,12 @@ class _SNum:
 
     def concretize(self):
         return ENG.concretize(self.z)
+
+    def __deepcopy__(self, memo):     # proxies are immutable values
+        return self
+
+    def __copy__(self):
+        return self
 
 
 def _add(a, b): return a + b
